@@ -374,6 +374,30 @@ theorem getS_of_mem_nodup (l : List Stream) (hnd : (l.map (·.si)).Nodup) (x : S
       simp only [hne]
       exact ih hnd.2 hx
 
+/-- with one entry per stream id, replacing the first match is replacing every match -/
+theorem setFirst_eq_map (l : List Stream) (hnd : (l.map (·.si)).Nodup) (a : BitVec 16) (i : Nat) (v : Stream) (hv : v.si = a) :
+    setFirst (fun y => y.si == a && y.inc == i) v l = l.map (fun y => if (y.si == a && y.inc == i) = true then v else y) := by
+  induction l with
+  | nil => rfl
+  | cons z l ih =>
+    simp only [List.map_cons, List.nodup_cons] at hnd
+    simp only [setFirst, List.map_cons]
+    split
+    · rename_i hz
+      congr 1
+      -- no other entry has this stream id
+      have hzs : z.si = a := by simp only [Bool.and_eq_true, beq_iff_eq] at hz; exact hz.1
+      symm
+      calc l.map (fun y => if (y.si == a && y.inc == i) = true then v else y) = l.map id := by
+            apply List.map_congr_left
+            intro y hy
+            have : y.si ≠ a := by
+              intro e; apply hnd.1; rw [hzs, ← e]; exact List.mem_map_of_mem hy
+            simp [this]
+        _ = l := List.map_id _
+    · congr 1
+      exact ih hnd.2
+
 /-- ✱ a read keeps the simulation; on the stream under study it delivers nothing, or exactly message `d` -/
 theorem read_step {U : Univ} {T : SSpec} {s : St} {R : RecvQ.St} {d : Nat} (h : PInv U T s R d) (nm : Name) (n : Nat) :
     (readOut T.S.si s (.read nm n) = [] ∧ PInv U T (read s nm n).1 R d) ∨
@@ -393,8 +417,13 @@ theorem read_step {U : Univ} {T : SSpec} {s : St} {R : RecvQ.St} {d : Nat} (h : 
     have hxs : x.si = nm.1 := by
       have := List.find?_some hf; simp only [Bool.and_eq_true, beq_iff_eq] at this; exact this.1
     let g : Stream → Stream := fun y => if (y.si == nm.1 && y.inc == nm.2) = true then (readStream x n).1 else y
+    have hrsi : (readStream x n).1.si = nm.1 := by
+      have : (readStream x n).1.si = x.si := by unfold readStream; dsimp only; split <;> rfl
+      rw [this, hxs]
     have hr : read s nm n = ({ s with streams := s.streams.map g }, (readStream x n).2) := by
       unfold read; rw [hf]
+      dsimp only
+      rw [setFirst_eq_map s.streams h.tb nm.1 nm.2 _ hrsi]
     have hgsi : ∀ y, (g y).si = y.si := by
       intro y
       show (if (y.si == nm.1 && y.inc == nm.2) = true then (readStream x n).1 else y).si = y.si
